@@ -1,6 +1,7 @@
 RULES = [
-    ("C05-F2", "a latch whose set condition reads another latch (set = l1.read() > 0, reset = t > 0, set priority): after "
-               "both were on, set released (l1 reset) and reset still active, the second latch stays on",
+    ("C05-F2", "two latches on the SAME signal type that share a reset comparison: the shared reset decider's output wire joins "
+               "both latches' input networks, the two set values are summed there and neither latch resets (same "
+               "root cause as C01-F8)",
      lambda c, d: c.get("family") == "two-latches" and c["tag"].startswith("chained")),
     ("C05-F1", "non-inlined reset-priority latch (write(v, reset=r, set=s) with signals or comparisons on different inputs): "
                "the single 'S > R' decider adds its own feedback to S, so when reset becomes active while set is still "
